@@ -99,7 +99,7 @@ var c07ToClasses = []string{"user", "user", "fresh", "other-prefix", "bad-checks
 	"module-opchild", "module-feecollector", "module-distribution", "module-minter"}
 
 var c07Payloads = []string{"none", "none", "garbage", "truncated", "badsig", "wrongseq", "wrongchain", "ok-send", "ok-send", "ok-multi", "fail-k", "unroutable",
-	"multi-signer", "self-withdraw", "self-exec", "gas-hog", "empty-tx", "withdraw-then-fail", "send-and-withdraw", "reentrant-finalize", "withdraw-native", "withdraw-and-send", "bad-signer", "mutated"}
+	"multi-signer", "self-withdraw", "self-exec", "gas-hog", "empty-tx", "withdraw-then-fail", "send-and-withdraw", "reentrant-finalize", "withdraw-native", "withdraw-and-send", "bad-signer", "mutated", "handler-runtime-error"}
 
 func genC07Case(rt *rapid.T) *c07Case {
 	tc := newTwoChain(tcOpts{nExecutors: 1, fault: true})
@@ -349,6 +349,17 @@ func genC07Case(rt *rapid.T) *c07Case {
 			panic(err)
 		}
 		data = signTx(l2, []sdk.Msg{em}, []cryptotypes.PrivKey{cs.signer.Priv}, []uint64{num}, []uint64{seq}, henv.L2ChainID)
+	case "handler-runtime-error":
+		// a well-signed hook whose message handler hits a Go runtime error (not an explicit panic, not out of
+		// gas): the L2 admin batches a parameter update without parameters, whose validation dereferences nil
+		l2.Fund(tc.admin.Addr, coinOf("stake", 10))
+		cs.signer = tc.admin // the account whose sequence the hook's ante handler advances
+		an, as := accInfo(l2, tc.admin)
+		em, err := opchildtypes.NewMsgExecuteMessages(tc.admin.Str, []sdk.Msg{&opchildtypes.MsgUpdateParams{Authority: l2.Authority}})
+		if err != nil {
+			panic(err)
+		}
+		data = signTx(l2, []sdk.Msg{em}, []cryptotypes.PrivKey{tc.admin.Priv}, []uint64{an}, []uint64{as}, henv.L2ChainID)
 	case "gas-hog":
 		var msgs []sdk.Msg
 		for i := 0; i < 30; i++ {
